@@ -31,6 +31,10 @@ def string_case(draw):
     s = draw(text())
     t = draw(st.one_of(text(4), st.sampled_from(SEPS)))
     sep = draw(st.sampled_from(SEPS))
+    if draw(st.booleans()):
+        # separator-dense subject: built from the separator and its own prefixes / suffixes, so that occurrences touch and overlap
+        frags = [sep, sep, sep[:1], sep[-1:], sep[:-1] or sep, sep[1:] or sep, t[:1] or "x"]
+        s = "".join(draw(st.lists(st.sampled_from(frags), max_size=8)))[:24]
     i = draw(ints())
     j = draw(ints())
     k = draw(st.integers(1, 4))
@@ -168,5 +172,5 @@ def check_strings(case):
 
 
 CHECKS = [
-    Check("string_functions", check_strings, string_case, quick=150, thorough=8000),
+    Check("string_functions", check_strings, string_case, quick=400, thorough=8000),
 ]
